@@ -336,13 +336,24 @@ func (r *crender) body(b []cstmt, ind int) {
 }
 
 // renderCase prints `func caseN() { x0 := source(site0); x1 := "a"; x2 := source(site2)|"b"; body }`.
-func renderCase(name string, site0, site2 int, body []cstmt) string {
+func renderCase(name string, site0, site2 int, body []cstmt, helper bool) string {
 	r := &crender{}
-	fmt.Fprintf(&r.sb, "func %s() {\n\tx0 := source(%d)\n\tx1 := \"a\"\n", name, site0)
-	if site2 > 0 {
-		fmt.Fprintf(&r.sb, "\tx2 := source(%d)\n", site2)
+	if helper {
+		// the body runs in a callee that receives the tainted values as parameters
+		fmt.Fprintf(&r.sb, "func %s() {\n\tx0 := source(%d)\n", name, site0)
+		if site2 > 0 {
+			fmt.Fprintf(&r.sb, "\tx2 := source(%d)\n", site2)
+		} else {
+			r.sb.WriteString("\tx2 := \"b\"\n")
+		}
+		fmt.Fprintf(&r.sb, "\th%s(x0, x2)\n}\n\nfunc h%s(x0, x2 string) {\n\tx1 := \"a\"\n", name, name)
 	} else {
-		r.sb.WriteString("\tx2 := \"b\"\n")
+		fmt.Fprintf(&r.sb, "func %s() {\n\tx0 := source(%d)\n\tx1 := \"a\"\n", name, site0)
+		if site2 > 0 {
+			fmt.Fprintf(&r.sb, "\tx2 := source(%d)\n", site2)
+		} else {
+			r.sb.WriteString("\tx2 := \"b\"\n")
+		}
 	}
 	r.body(body, 1)
 	r.sb.WriteString("\tuse(x0, x1, x2)\n}\n")
